@@ -32,6 +32,7 @@ LINES = ["GetComponent", "GetDumpStringLine", "GetErrorStringLine", "GetLogStrin
 TEXTFN = ["AccumulateLine", "AddError", "AddWarning"]
 VOIDS = ["OutputAccumulatedLines", "OutputErrorString", "OutputWarningString"]
 CAPS = [0, 1, 7, 13, 48, 80, 300]
+LONG_CAPS = [1, 2, 47, 98, 99, 100, 101, 102, 129, 130, 131, 171, 299, 300, 301, 400]
 FBUF = 48
 VIA = ["c", "f", "p"]
 
@@ -78,7 +79,7 @@ def gen_seq(rng, n):
             ops.append(f"g6 {via} {rng.choice(VOIDS)} {i}")
         elif r < 0.91:
             ops.append(rng.choice([f"setcb {rng.choice(['c', 'p', 'f', 'fc'])} {i}", f"nth {i} {rng.choice([-1, 0, 1, 2])}",
-                                   f"cell {i} {rng.choice([-1, 0, 1])} {rng.choice([-1, 0, 3])}", "version"]))
+                                   f"cell {i} {rng.choice([-1, 0, 1])} {rng.choice([-1, 0, 3])} {rng.choice(LONG_CAPS)}", "version"]))
         elif r < 0.93:
             ops.append(rng.choice([f"g5 {via} LoadDatabase {i} {hexs('/nonexistent/x.dat')}", f"g5 {via} LoadDatabaseString {i} {hexs('XYZ' + chr(10))}",
                                    f"g5 {via} RunString {i} {hexs('TITLE t' + chr(10))}", f"g5 {via} RunFile {i} {hexs('/nonexistent/in.pqi')}",
@@ -146,8 +147,10 @@ def unhexd(h):
     return struct.unpack(">d", bytes.fromhex(h))[0]
 
 
-def cell_relations(line):
+def cell_relations(line, cap=FBUF):
     parts = line.split(" | ")
+    if line.endswith(":OVERRUN"):
+        return "Value2 / ValueF wrote beyond the caller's buffer"
     c = parts[0].split()[1:]
     cpp = parts[1].split()[1:]
     v2 = parts[2].split()[1:]
@@ -183,12 +186,22 @@ def cell_relations(line):
             sval = b"" if var[1:] == "-" else bytes.fromhex(var[1:])
             if name == "Value2":
                 got = b"" if w[3] == "-" else bytes.fromhex(w[3])
-                if got != sval[:FBUF]:
-                    return "Value2 string differs"
+                if got != sval[:cap]:
+                    return f"Value2 string (caller buffer {cap}) is not the first {min(cap, len(sval))} characters of the {len(sval)}-character value"
             else:
-                buf, ln = w[3].split(":")
-                if int(ln) != len(sval) or bytes.fromhex(buf) != sval[:FBUF] + b" " * max(0, FBUF - len(sval)):
-                    return "ValueF string is not the blank-padded value / wrong length"
+                buf, ln = w[3].split(":")[:2]
+                fb = b"" if buf == "-" else bytes.fromhex(buf)
+                if int(ln) != len(sval):
+                    return f"ValueF reports length {ln} for a string cell of {len(sval)} characters (buffer {cap})"
+                if fb != sval[:cap] + b" " * max(0, cap - len(sval)):
+                    return f"ValueF buffer ({cap} characters) is not the truncated / blank-padded {len(sval)}-character value"
+        if var[0] in "LD" and name == "ValueF" and d == d and abs(d) != float("inf"):
+            # numbers also come back as text: "%ld" / "%23.15e", padded like any string, true length reported
+            text = (str(int(var[1:])) if var[0] == "L" else "%23.15e" % d).encode()
+            buf, ln = w[3].split(":")[:2]
+            fb = b"" if buf == "-" else bytes.fromhex(buf)
+            if int(ln) != len(text) or fb != text[:cap] + b" " * max(0, cap - len(text)):
+                return f"ValueF text of the number {var} is not {text!r} truncated / padded to {cap}"
     return None
 
 
@@ -198,7 +211,8 @@ def relations(op, line):
     if len(parts) == 1:
         return "Fortran glue wrote beyond the buffer" if line.endswith(":OVERRUN") else None
     if op.startswith("cell"):
-        return cell_relations(line)
+        w = op.split()
+        return cell_relations(line, int(w[4]) if len(w) > 4 else FBUF)
     c = parts[0].split()
     cpp = parts[1].split()[1:]
     f = parts[2].split()[1:]
@@ -288,6 +302,11 @@ USER_PUNCH 1
 SELECTED_OUTPUT 3
  -reset false
  -pH
+SELECTED_OUTPUT 2
+ -reset false
+USER_PUNCH 2
+ -headings h99_xxxxxxxxxxxxxxxxxxxxxxxxxxxxxxxxxxxxxxxxxxxxxxxxxxxxxxxxxxxxxxxxxxxxxxxxxxxxxxxxxxxxxxxxxxxxxxx h100_xxxxxxxxxxxxxxxxxxxxxxxxxxxxxxxxxxxxxxxxxxxxxxxxxxxxxxxxxxxxxxxxxxxxxxxxxxxxxxxxxxxxxxxxxxxxxxx h101_xxxxxxxxxxxxxxxxxxxxxxxxxxxxxxxxxxxxxxxxxxxxxxxxxxxxxxxxxxxxxxxxxxxxxxxxxxxxxxxxxxxxxxxxxxxxxxxx h130_xxxxxxxxxxxxxxxxxxxxxxxxxxxxxxxxxxxxxxxxxxxxxxxxxxxxxxxxxxxxxxxxxxxxxxxxxxxxxxxxxxxxxxxxxxxxxxxxxxxxxxxxxxxxxxxxxxxxxxxxxxxxx h170_xxxxxxxxxxxxxxxxxxxxxxxxxxxxxxxxxxxxxxxxxxxxxxxxxxxxxxxxxxxxxxxxxxxxxxxxxxxxxxxxxxxxxxxxxxxxxxxxxxxxxxxxxxxxxxxxxxxxxxxxxxxxxxxxxxxxxxxxxxxxxxxxxxxxxxxxxxxxxxxxxxxxx h300_xxxxxxxxxxxxxxxxxxxxxxxxxxxxxxxxxxxxxxxxxxxxxxxxxxxxxxxxxxxxxxxxxxxxxxxxxxxxxxxxxxxxxxxxxxxxxxxxxxxxxxxxxxxxxxxxxxxxxxxxxxxxxxxxxxxxxxxxxxxxxxxxxxxxxxxxxxxxxxxxxxxxxxxxxxxxxxxxxxxxxxxxxxxxxxxxxxxxxxxxxxxxxxxxxxxxxxxxxxxxxxxxxxxxxxxxxxxxxxxxxxxxxxxxxxxxxxxxxxxxxxxxxxxxxxxxxxxxxxxxxxxxxxxxxxxxxxx
+ 10 PUNCH "v99 yyyyyyyyyyyyyyyyyyyyyyyyyyyyyyyyyyyyyyyyyyyyyyyyyyyyyyyyyyyyyyyyyyyyyyyyyyyyyyyyyyyyyyyyyyyyyyy", "v100 yyyyyyyyyyyyyyyyyyyyyyyyyyyyyyyyyyyyyyyyyyyyyyyyyyyyyyyyyyyyyyyyyyyyyyyyyyyyyyyyyyyyyyyyyyyyyyy", "v101 yyyyyyyyyyyyyyyyyyyyyyyyyyyyyyyyyyyyyyyyyyyyyyyyyyyyyyyyyyyyyyyyyyyyyyyyyyyyyyyyyyyyyyyyyyyyyyyy", "v130 yyyyyyyyyyyyyyyyyyyyyyyyyyyyyyyyyyyyyyyyyyyyyyyyyyyyyyyyyyyyyyyyyyyyyyyyyyyyyyyyyyyyyyyyyyyyyyyyyyyyyyyyyyyyyyyyyyyyyyyyyyyyy", "v170 yyyyyyyyyyyyyyyyyyyyyyyyyyyyyyyyyyyyyyyyyyyyyyyyyyyyyyyyyyyyyyyyyyyyyyyyyyyyyyyyyyyyyyyyyyyyyyyyyyyyyyyyyyyyyyyyyyyyyyyyyyyyyyyyyyyyyyyyyyyyyyyyyyyyyyyyyyyyyyyyyyyyy", "v300 yyyyyyyyyyyyyyyyyyyyyyyyyyyyyyyyyyyyyyyyyyyyyyyyyyyyyyyyyyyyyyyyyyyyyyyyyyyyyyyyyyyyyyyyyyyyyyyyyyyyyyyyyyyyyyyyyyyyyyyyyyyyyyyyyyyyyyyyyyyyyyyyyyyyyyyyyyyyyyyyyyyyyyyyyyyyyyyyyyyyyyyyyyyyyyyyyyyyyyyyyyyyyyyyyyyyyyyyyyyyyyyyyyyyyyyyyyyyyyyyyyyyyyyyyyyyyyyyyyyyyyyyyyyyyyyyyyyyyyyyyyyyyyyyyyyyyyy"
 USER_PRINT
  10 PRINT "callback", CALLBACK(2, 3, "abc")
 DUMP
@@ -318,7 +337,7 @@ def scenario(live_ids):
         ops += [f"loaddb c {i}", f"g4 c SetOutputStringOn {i} 1", f"g4 f SetDumpStringOn {i} 1", f"g4 p SetLogStringOn {i} 1",
                 f"g4 c SetSelectedOutputStringOn {i} 1", f"setcb {'c' if i == 0 else 'f'} {i}",
                 f"g5 c AccumulateLine {i} {hexs('TITLE accumulated')}", f"g5 f AddWarning {i} {hexs('a warning added by hand')}",
-                f"runsel c {i} {hexs(RUN_INPUT)} 1 3"]
+                f"runsel c {i} {hexs(RUN_INPUT)} 1 3 2"]
     probes = []
     for i in live_ids + [1, 99, -1, -6]:
         for cur in ((1, 3, 2, 0) if i in live_ids else (1,)):
@@ -335,6 +354,13 @@ def scenario(live_ids):
             for r in range(-1, 6):
                 for c in range(-2, 14):
                     probes.append(f"cell {i} {r} {c}")
+            if cur == 2 or i not in live_ids:
+                # headings and punched strings of 99 ... 300 characters through caller buffers shorter and longer than the value
+                # (and than the 100-character scratch buffers of the glue)
+                for r in (0, 1, 3):
+                    for c in range(0, 6):
+                        for cap in LONG_CAPS:
+                            probes.append(f"cell {i} {r} {c} {cap}")
             probes += [f"g6 {v} {n} {i}" for n in VOIDS for v in VIA]
     probes += ["version"]
     return ops, probes
@@ -375,7 +401,10 @@ def run_scenario(ctx, runner):
                 if len(bytes.fromhex(cs)) > (len(w[0]) // 2 if w[0] != "-" else 0):
                     seen["truncated"] += 1
     ctx.cov["scenario"] = seen
-    if seen["nonempty_strings"] < 50 or seen["truncated"] < 10 or seen["dead_probes"] < 100:
+    longcells = sum(1 for op, ln in zip(ops + probes, out) if op.startswith("cell") and len(op.split()) > 4 and " S" in ln.split(" | ")[0]
+                    and len(ln.split(" | ")[0].split()[2]) > 2 * 100)
+    seen["string_cells_of_100_or_more_characters_probed"] = longcells
+    if seen["nonempty_strings"] < 50 or seen["truncated"] < 10 or seen["dead_probes"] < 100 or longcells < 100:
         return n, ("vacuous", seen, "", "the accessor scenario no longer reaches non-empty / truncated strings or dead ids"), ops
     return n, None, ops
 
